@@ -494,6 +494,9 @@ def gen_case(g, phones, sil, mode, nadds):
         bases = [w for w in known if basestr(w) is None and not w.startswith(b"<") and b"(" not in w and b")" not in w] or \
                 [w for w in known if basestr(w) is None]
         w, kind = g.spelling(known, bases)
+        pre = around_add_pre(g, o, ops, w, mode)   # the query directly before the addition (class of C16-em1)
+        have_search = have_search or bool(pre and pre["sets"])
+        upd = 0
         if mode == "dec":
             pk = r.weighted([("ok", 70), ("unknown", 6), ("lower", 3), ("empty", 3), ("blank", 3), ("one", 7), ("sil-ctx", 8)])
             toks = g.pron(1 if pk == "one" else None)
@@ -525,6 +528,10 @@ def gen_case(g, phones, sil, mode, nadds):
             ops.append(f"dadd {hx(w)} {len(ids)} " + " ".join(map(str, ids)))
             res = o.dadd(w, ids)
         g.hit("add_result", "accepted" if res >= 0 else f"rejected:{kind}")
+        if mode == "dec":
+            g.hit("add_context", f"update={upd},{'grammar loaded' if have_search else 'no grammar'}")
+        have_search = around_add_post(g, o, ops, w, mode, pre, res >= 0,
+                                      f"add(update={upd},{'grammar' if have_search else 'no grammar'})" if mode == "dec" else "dict_add_word") or have_search
         # observations after (almost) every addition
         for _ in range(r.range(0, 3)):
             ok = r.weighted([("lookup-new", 4), ("lookup-old", 4), ("wid", 3), ("chain", 5), ("dump", 2), ("base", 2), ("lookup-unknown", 1)] +
@@ -566,6 +573,98 @@ def gen_case(g, phones, sil, mode, nadds):
 
 def plain(w):
     return w and not any(c in b" \t\n\r\v\f" for c in w) and not w.startswith(b"<") and not w.startswith(b"[")
+
+
+# --------------------------------------------------------------------------
+# queries placed directly around an addition (no other operation in between): the class "is it known? - (no) - add it -
+# ask again".  A query only reads the dictionary (Props/C16Probe.lean: C16_queries_transparent, C16_answer_ignores_queries,
+# C16_lookup_add_lookup, C16_wid_dadd_wid), so whatever was answered right before an addition must not colour the answer
+# given right after it.  The key is the spelling that is ABOUT to be added (or its alternate / base / case variant).
+
+def probe_text_ok(w):
+    return bool(w) and plain(w) and all(32 < c < 127 for c in w)
+
+
+def probe_key(g, o, w):
+    r = g.rng
+    k = r.weighted([("same", 70), ("alt-of", 10), ("base-of", 10), ("case", 10)])
+    if k == "alt-of":
+        return w + b"(2)", k
+    if k == "base-of" and basestr(w):
+        return basestr(w), k
+    if k == "case" and w.swapcase() != w:
+        return w.swapcase(), k
+    return w, "same"
+
+
+def probe_op(g, o, key, mode, where):
+    """one query whose FIRST (where = 'post') / LAST (where = 'pre') dictionary lookup is `key`; returns (op, kind,
+    does the implementation have a search afterwards according to the shadow oracle)"""
+    r = g.rng
+    if mode != "dec":
+        kind = r.weighted([("wid", 80), ("chain", 20)])
+    elif where == "pre":
+        kind = r.weighted([("lookup", 45), ("wid", 18), ("align-last", 17), ("align-only", 6), ("fsg", 6), ("chain", 4), ("intern", 4)])
+    else:
+        kind = r.weighted([("lookup", 38), ("wid", 14), ("align-first", 22), ("align-only", 6), ("fsg", 10), ("chain", 5), ("intern", 5)])
+    if kind in ("align-last", "align-first", "align-only", "fsg") and not probe_text_ok(key):
+        kind = "lookup"
+    others = [x for x, _, _ in o.words if probe_text_ok(x)]
+    if kind in ("align-last", "align-first") and not others:
+        kind = "align-only"
+    sets = False
+    if kind == "lookup":
+        op = f"lookup {hx(key)}"
+    elif kind in ("wid", "chain", "intern"):
+        op = f"{kind} {hx(key)}"
+    elif kind == "fsg":
+        ws = [key] + ([r.choice(others)] if others and r.chance(0.5) else [])
+        op = "fsg " + " ".join(hx(x) for x in ws)
+        sets = all(o.wid(x) >= 0 for x in ws)
+    else:
+        ws = {"align-only": [key], "align-first": [key, r.choice(others or [key])],
+              "align-last": [r.choice(others or [key]), key]}[kind]
+        op = f"align {hx(b' '.join(ws))}"
+        sets = all(o.wid(x) >= 0 for x in ws)
+    return op, kind, sets
+
+
+def around_add_pre(g, o, ops, w, mode, p=0.45):
+    """with probability p: a query of the about-to-be-added spelling as the operation right before the addition"""
+    r = g.rng
+    if not r.chance(p):
+        g.hit("around_add_pre", "none")
+        return None
+    key, kk = probe_key(g, o, w)
+    op, kind, sets = probe_op(g, o, key, mode, "pre")
+    ops.append(op)
+    hit = o.wid(key) >= 0
+    g.hit("around_add_pre", f"{kind}:{'hit' if hit else 'miss'}")
+    g.hit("around_add_key", kk)
+    return {"key": key, "hit": hit, "sets": sets, "kind": kind}
+
+
+def around_add_post(g, o, ops, w, mode, pre, accepted, ctx):
+    """the query right after the addition: the same key again (mostly) when there was one right before"""
+    r = g.rng
+    if not r.chance(0.85 if pre else 0.25):
+        g.hit("around_add_post", "none")
+        if pre:
+            g.hit("around_add_pattern", f"{'hit' if pre['hit'] else 'miss'}->{'accepted' if accepted else 'rejected'}->(no query)")
+        return False
+    same = pre is not None and r.chance(0.85)
+    key = pre["key"] if same else w
+    op, kind, sets = probe_op(g, o, key, mode, "post")
+    ops.append(op)
+    g.hit("around_add_post", kind)
+    if pre:
+        g.hit("around_add_pattern", f"{'hit' if pre['hit'] else 'miss'}->{'accepted' if accepted else 'rejected'}->"
+                                    f"{'same key' if key == pre['key'] else 'added word'}:{'hit' if o.wid(key) >= 0 else 'miss'}")
+        if not pre["hit"] and accepted and o.wid(key) >= 0 and key == pre["key"]:
+            g.hit("around_add_miss_then_found", f"{pre['kind']}->{ctx}->{kind}")
+    else:
+        g.hit("around_add_pattern", f"(no query)->{'accepted' if accepted else 'rejected'}->added word")
+    return sets
 
 
 def gen_grammar(g, o, ops, must):
@@ -1107,6 +1206,16 @@ def full_dict_case(g, phones, sil):
         else:
             w, p = g.fresh(5), g.phone_string(g.pron(1))
         g.hit("full_dict", k)
+        if r.chance(0.5):      # the query right before the addition, the same one right after it
+            pk_ = r.weighted([("lookup", 6), ("wid", 2), ("align", 2)])
+            if pk_ == "align" and not probe_text_ok(w):
+                pk_ = "lookup"
+            ops.append(f"align {hx(b'go ' + w)}" if pk_ == "align" else f"{pk_} {hx(w)}")
+            g.hit("full_dict_query_before_add", pk_)
+            if pk_ == "align" and r.chance(0.5):
+                ops.append(f"add {hx(w)} {hx(p)} 0")
+                ops.append(f"align {hx(w + b' go')}")
+                continue
         ops.append(f"add {hx(w)} {hx(p)} 0")
         ops.append(f"lookup {hx(w)}")
         if r.chance(0.5):
@@ -1256,6 +1365,11 @@ def exhaustive_batches(maxlen, nocase):
                 batch.append(f"dadd {hx(alpha[a])} 1 {1 + (j + a) % 7}")
             batch += ["dump", f"chain {hx(b'foo')}", f"wid {hx(b'FOO')}"]
             ncase += 1
+            batch += [f"begin dict {int(nocase)}", f"fload {hx(b'<sil>')} {hx(b'SIL')}", "init"]
+            for j, a in enumerate(seq):
+                batch += [f"wid {hx(alpha[a])}", f"dadd {hx(alpha[a])} 1 {1 + (j + a) % 7}", f"wid {hx(alpha[a])}"]
+            batch += ["dump", f"chain {hx(b'foo')}", f"wid {hx(b'FOO')}"]
+            ncase += 1
             if len(batch) > 150000:
                 yield batch, ncase
                 batch, ncase = [], 0
@@ -1312,6 +1426,8 @@ def gen_growth(g, phones, sil, mode, nadds):
             w = b""
         else:
             w = g.fresh()
+        at_boundary = any(-1 <= len(o.words) - (cap + j * INC) <= 1 for j in range(0, 3))
+        pre = around_add_pre(g, o, ops, w, mode, p=0.9 if at_boundary else 0.06)
         if mode == "dec":
             ps = b" ".join(g.pron(r.range(1, 4)))
             if kind == "badphone":
@@ -1322,6 +1438,8 @@ def gen_growth(g, phones, sil, mode, nadds):
             ids = [phones.index(t) for t in g.pron(r.range(1, 4))]
             ops.append(f"dadd {hx(w)} {len(ids)} " + " ".join(map(str, ids)))
             res = o.dadd(w, ids)
+        if pre:
+            around_add_post(g, o, ops, w, mode, pre, res >= 0, "add at the reallocation boundary" if at_boundary else "add (growth)")
         count += 1 if res >= 0 else 0
         g.hit("growth_add", "accepted" if res >= 0 else f"rejected:{kind}")
         n = len(o.words)
